@@ -144,3 +144,57 @@ Section AlteredBad.
 End AlteredBad.
 
 Print Assumptions badg_altered.
+
+(* malformed payloads: a frame with a good header (with or without checksum; the checksum, if any, may even be right) whose
+   payload is not a sequence of items is refused, and only once it has been read completely *)
+Section Malformed.
+  Variables (crc : bool) (ts payload trailer : list N).
+  Hypothesis Hts : length ts = 12%nat.
+  Hypothesis Hpl : N.of_nat (length payload) < 65536.
+  Hypothesis Htr : length trailer = (if crc then 4 else 0)%nat.
+  Hypothesis Hbad : dec_items (S (length payload)) payload = None.
+
+  Definition malformed_frame : list N :=
+    pad32 (le 2 magic ++ le 2 (ctrl_word crc) ++ ts ++ le 2 (N.of_nat (length payload)) ++ (payload ++ trailer)).
+
+  Theorem badg_malformed : PeerU.badg message c_verdict maxlen malformed_frame.
+  Proof.
+    unfold malformed_frame.
+    set (fr := le 2 magic ++ le 2 (ctrl_word crc) ++ ts ++ le 2 (N.of_nat (length payload)) ++ (payload ++ trailer)).
+    assert (Hlfr : length fr = (hdr + length payload + (if crc then 4 else 0))%nat).
+    { unfold fr. rewrite !app_length, !le_length, Hts, Htr. unfold hdr. lia. }
+    destruct (pad32_spec fr ltac:(rewrite Hlfr; unfold hdr; lia)) as (pd & Ep & Zpd & A1 & A2). rewrite Ep in *.
+    assert (Hpd : (length pd < 32)%nat).
+    { unfold pad32 in Ep. destruct (Nat.eqb_spec (length fr mod 32) 0).
+      - assert (pd = []) by (apply (app_inv_head fr); rewrite app_nil_r; symmetry; exact Ep). subst. cbn. lia.
+      - apply app_inv_head in Ep. subst pd. rewrite repeat_length. pose proof (Nat.mod_upper_bound (length fr) 32). lia. }
+    destruct (C08Proofs.ctrl_word_ok crc) as (Hc & Hmask & Hver & Hcrc).
+    assert (Hh : read_header (fr ++ pd) = HOk crc (hdr + length payload + (if crc then 4 else 0)) (length payload)).
+    { unfold fr. rewrite <- !app_assoc.
+      rewrite (read_header_parts (ctrl_word crc) ts (N.of_nat (length payload))) by assumption.
+      rewrite Hcrc, Nat2N.id. reflexivity. }
+    assert (Hsk : skipn hdr (fr ++ pd) = payload ++ trailer ++ pd).
+    { unfold fr, hdr. rewrite <- !app_assoc.
+      change 18%nat with (2 + (2 + (12 + 2)))%nat.
+      rewrite skipn_add, (skipn_app_exact (le 2 magic)) by apply le_length.
+      rewrite skipn_add, (skipn_app_exact (le 2 _)) by apply le_length.
+      rewrite skipn_add, (skipn_app_exact ts) by exact Hts.
+      rewrite (skipn_app_exact (le 2 _)) by apply le_length. reflexivity. }
+    apply (badg_of_frame _ crc (hdr + length payload + (if crc then 4 else 0))%nat (length payload)).
+    - split; assumption.
+    - rewrite app_length, Hlfr. unfold maxlen, hdr. destruct crc; lia.
+    - exact Hh.
+    - rewrite app_length, Hlfr. unfold hdr. lia.
+    - rewrite app_length, Hlfr. lia.
+    - replace (hdr + length payload + (if crc then 4 else 0))%nat with (hdr + (length payload + length trailer))%nat by (rewrite Htr; lia).
+      rewrite skipn_add, Hsk, app_assoc, skipn_app_exact by (rewrite app_length; reflexivity). exact Zpd.
+    - intros ms Hacc.
+      rewrite (decode_frame_alt (fr ++ pd) (conj A1 A2)), Hh in Hacc.
+      destruct (Nat.ltb_spec (length (fr ++ pd)) (hdr + length payload + (if crc then 4 else 0))) as [|_]; [discriminate|].
+      unfold finish in Hacc. rewrite Hsk in Hacc.
+      rewrite (firstn_app_exact payload) in Hacc by reflexivity. rewrite Hbad in Hacc.
+      destruct (negb (all_zero _)); discriminate.
+  Qed.
+End Malformed.
+
+Print Assumptions badg_malformed.
